@@ -20,6 +20,7 @@ import common as C
 import gomod
 import k4
 import c04gen
+import glob
 
 LEVEL = "proof"
 HDEPS = os.path.join(C.BIN, "hdeps")
@@ -152,6 +153,24 @@ def check(ctx, build=None):
                          "the same definitions for every layout", {"differing": diff[:5]})
                 if len(samples) < 1 and li == 1:
                     samples.append({"seed": seed, "files": sorted(fs), "go_order": [d.name for d in decls][:12], "emitted_order": res["order"][:12]})
+        # ---- known findings: committed witnesses
+        known = {e["key"]: e for e in C.load_known("C04") if e.get("status") == "known"}
+        for path in sorted(glob.glob(os.path.join(C.VERIF, "findings", "C04", "*.go"))):
+            key = os.path.basename(path)[:-3]
+            root = os.path.join(scratch, "w")
+            gomod.write_module(root, {"p": {"p.go": open(path).read()}})
+            rc, gerr, text = k4.translate(root, flags=())
+            if rc != 0 or text is None:
+                continue
+            reps = k4.gl_session(text, ["names"])
+            order = reps[1][6:].split(",") if not reps[0].startswith("parse-error") and reps[1] != "names -" else []
+            dups = sorted({n for n in order if order.count(n) > 1})
+            stats["witnesses"] += 1
+            if dups:
+                if key in known:
+                    ctx.known("%s — %s (findings/C04/%s.go: defined twice: %s)" % (key, known[key]["what"], key, ",".join(dups)))
+                else:
+                    viol("C04: a witness program that is not a listed known finding defines a name twice", {"proto": "c04-witness", "file": path}, "distinct names", dups)
         # ---- an obligation or the correspondence broke and nothing concrete was found yet: search further
         if build.broken and not found:
             for seed in range(ctx.seed * 7000 + 1000, ctx.seed * 7000 + 1000 + 120):
